@@ -14,4 +14,31 @@ theorem C05_translated_substring_dispatch (cfg : Cfg) (ext : Ext) (hrep nrep : R
   unfold substringMatch Gen.Dispatch.substring_match_impl modelCalls
   rcases n with _ | ⟨c, _ | ⟨d, t⟩⟩ <;> cases hrep <;> cases nrep <;> simp <;> (repeat' split) <;> simp_all
 
+/-! ## `exact_match`, `prefix_match`, `postfix_match` (and their `_indices` twins, which the translator requires to have the same body up
+to the index vector): the trimming rules and the window handed to `exact_match_impl`, translated from the source -/
+
+/-- **`exact_match` / `exact_indices`**: empty-needle guard, whitespace trimming on both sides, wrap-around guard, window -/
+theorem C05_translated_exact_wrapper (cfg : Cfg) (ext : Ext) (hrep nrep : Rep) (h n : List Nat) :
+    exactMatch cfg ext hrep nrep h n =
+      Gen.Dispatch.exact_match (modelCalls cfg ext hrep nrep h n) h.length n.length (isWs (n.headD 0))
+        (isWs (n.getLast?.getD (n.headD 0))) (leadingWs hrep h) (trailingWs hrep h) := by
+  unfold exactMatch Gen.Dispatch.exact_match modelCalls
+  rcases n with _ | ⟨c, t⟩ <;> simp
+
+/-- **`prefix_match` / `prefix_indices`** -/
+theorem C05_translated_prefix_wrapper (cfg : Cfg) (ext : Ext) (hrep nrep : Rep) (h n : List Nat) :
+    prefixMatch cfg ext hrep nrep h n =
+      Gen.Dispatch.prefix_match (modelCalls cfg ext hrep nrep h n) h.length n.length (isWs (n.headD 0))
+        (isWs (n.getLast?.getD (n.headD 0))) (leadingWs hrep h) (trailingWs hrep h) := by
+  unfold prefixMatch Gen.Dispatch.prefix_match modelCalls
+  rcases n with _ | ⟨c, t⟩ <;> simp
+
+/-- **`postfix_match` / `postfix_indices`** -/
+theorem C05_translated_postfix_wrapper (cfg : Cfg) (ext : Ext) (hrep nrep : Rep) (h n : List Nat) :
+    postfixMatch cfg ext hrep nrep h n =
+      Gen.Dispatch.postfix_match (modelCalls cfg ext hrep nrep h n) h.length n.length (isWs (n.headD 0))
+        (isWs (n.getLast?.getD (n.headD 0))) (leadingWs hrep h) (trailingWs hrep h) := by
+  unfold postfixMatch Gen.Dispatch.postfix_match modelCalls
+  rcases n with _ | ⟨c, t⟩ <;> simp
+
 end NucleoVerif
